@@ -608,7 +608,7 @@ func (e *Eng) actIntrospectEndpoint() {
 	// caller
 	var auth h.Auth
 	callerOK := Active
-	callerKind := pick(t, []string{"basic", "basic", "basic-wrong", "none", "bearer", "bearer", "bearer-same", "bearer-refresh", "basic-public"}, "caller")
+	callerKind := pick(t, []string{"basic", "basic", "basic-wrong", "none", "bearer", "bearer", "bearer-same", "bearer-refresh", "basic-public", "public-id-only"}, "caller")
 	switch callerKind {
 	case "basic":
 		auth = e.w.BasicFor(pick(t, []string{"A", "B"}, "callerClient"))
@@ -617,6 +617,18 @@ func (e *Eng) actIntrospectEndpoint() {
 		callerOK = Inactive
 	case "basic-public":
 		auth = h.Auth{BasicUser: "P", BasicPass: "x"}
+		callerOK = Inactive
+	case "public-id-only":
+		// a public client has no credentials: naming it (which is all the token endpoint asks of it) authenticates nobody
+		switch rapid.IntRange(0, 2).Draw(t, "publicIDHow") {
+		case 0:
+			auth = h.Auth{BasicUser: "P"}
+		case 1:
+			form.Set("client_id", "P")
+		default:
+			auth = h.Auth{BasicUser: "P"}
+			form.Set("client_id", "P")
+		}
 		callerOK = Inactive
 	case "none":
 		callerOK = Inactive
